@@ -28,7 +28,15 @@ JJ == {<<-1, 0>>, <<-1, 1>>, <<0, 0>>, <<0, 1>>, <<1, 0>>, <<1, 1>>, <<2, 0>>}  
 JJfew == {<<-1, 1>>, <<0, 0>>, <<1, 1>>, <<2, 0>>}
 Few == {Vec7(k) : k \in {1093 + 1, 2186, 0, 1093 + 3 + 27, 1093 - 9 + 243, 2186 - 81 - 2}}   \* a few dense vectors (1093 = all zero)
 Shapes == {<<4, 4, 1>>, <<2, 2, 1>>, <<1, 1, 0>>, <<3, 2, 0>>, <<-1, -1, -1>>, <<4, 1, 1>>}     \* <<N, nmx, mmx>> of correction sets
-H1(c, N, nmx, mmx) == [L |-> 1, tau |-> <<1>>, N |-> <<N>>, nmx |-> <<nmx>>, mmx |-> <<mmx>>, c |-> <<c>>]
+\* every harmonic carries the constructor form ct, the normalisation argument (norm = "default": argument left out), the
+\* normalisation wn in which the driver has to express the coefficients (a coefficient c of the Schmidt lattice is written as
+\* c / sqrt(2n + 1) for full normalisation: "fully normalized" = sqrt(2n + 1) x "Schmidt semi-normalized"), and asg (object
+\* default-constructed first, then copy-assigned)
+Form(h, ct, nrm, asg) == h @@ [ct |-> ct, norm |-> nrm, wn |-> NormEff(nrm, HarmNormDefault), asg |-> asg]
+H1(c, N, nmx, mmx) == Form([L |-> 1, tau |-> <<1>>, N |-> <<N>>, nmx |-> <<nmx>>, mmx |-> <<mmx>>, c |-> <<c>>], "general", "schmidt", FALSE)
+Norms == {"schmidt", "full", "default"}
+FullSet(L, taus, Ns, cs) == [L |-> L, tau |-> taus, N |-> Ns, nmx |-> Ns, mmx |-> Ns, c |-> cs]        \* "full set of coefficients"
+Dense == <<Vec7(2186), Vec7(1093 + 3 + 27 - 81 + 243 + 729), Vec7(1093 - 1 - 9 + 27 + 243 - 729)>>   \* three dense coefficient vectors
 VecVal(C) ==
   \* one-component form, all coefficient vectors over {-1,0,1} (quick: weight <= 2 and a sample)
   \/ \E code \in InChunk(0..2186, C), pt \in 1..6, jj \in JJ :
@@ -41,35 +49,115 @@ VecVal(C) ==
   \/ \E c0 \in Few, c1 \in Few, s1 \in Shapes, t1 \in {-1, 2}, pt \in 1..6, jj \in JJfew :
         /\ C = 1
         /\ (Quick => c1 \in {Vec7(2186), Vec7(0), Vec7(1093 - 9 + 243)})
-        /\ v' = <<"val", [L |-> 2, tau |-> <<1, t1>>, N |-> <<4, s1[1]>>, nmx |-> <<4, s1[2]>>, mmx |-> <<1, s1[3]>>, c |-> <<c0, c1>>], pt, jj[1], jj[2]>>
+        /\ v' = <<"val", Form([L |-> 2, tau |-> <<1, t1>>, N |-> <<4, s1[1]>>, nmx |-> <<4, s1[2]>>, mmx |-> <<1, s1[3]>>, c |-> <<c0, c1>>],
+                               "general", "schmidt", FALSE), pt, jj[1], jj[2]>>
   \/ \E c0 \in {Vec7(2186), Vec7(1093 + 3 + 27)}, c1 \in {Vec7(2186), Vec7(0)}, c2 \in {Vec7(2186), Vec7(1093 - 9 + 243)},
         s1 \in Shapes, s2 \in {<<4, 4, 1>>, <<2, 2, 0>>, <<1, 1, 1>>}, t1 \in {-1, 2}, t2 \in {-1, 2}, pt \in 1..6, jj \in JJfew :
         /\ C = 2 + (pt % 4)
         /\ (Quick => jj \in {<<0, 0>>, <<1, 1>>})
-        /\ v' = <<"val", [L |-> 3, tau |-> <<1, t1, t2>>, N |-> <<4, s1[1], s2[1]>>, nmx |-> <<4, s1[2], s2[2]>>, mmx |-> <<1, s1[3], s2[3]>>,
-                          c |-> <<c0, c1, c2>>], pt, jj[1], jj[2]>>
+        /\ v' = <<"val", Form([L |-> 3, tau |-> <<1, t1, t2>>, N |-> <<4, s1[1], s2[1]>>, nmx |-> <<4, s1[2], s2[2]>>, mmx |-> <<1, s1[3], s2[3]>>,
+                                c |-> <<c0, c1, c2>>], "general", "schmidt", FALSE), pt, jj[1], jj[2]>>
+  \* general form, layout degree N' > N with nmx' <= nmx, mmx' <= mmx: the header documents GeographicErr ("N >= N1"), the library
+  \* accepts: recorded known finding, the records carry the label kf = sh-general-layout-n1-gt-n computed from these inputs
+  \/ \E ci \in 1..3, nrm \in Norms, pt \in 1..6, jj \in {<<0, 0>>, <<1, 1>>} :
+        /\ C = 23
+        /\ v' = <<"val", Form([L |-> 2, tau |-> <<1, 2>>, N |-> <<1, 4>>, nmx |-> <<1, 1>>, mmx |-> <<1, 1>>, c |-> <<Dense[ci], Dense[(ci % 3) + 1]>>],
+                               "general", nrm, FALSE), pt, jj[1], jj[2]>>
+  \* the constructor family: every form (general / simple, normalisation given / left out, assigned) of every class on full
+  \* sets of degree N_l (simple form applicable); N_l > N is the documented exception of both forms
+  \/ \E ci \in 1..3, N0 \in {0, 1, 2, 4}, ct \in {"general", "simple"}, nrm \in Norms, asg \in B2, pt \in 1..6, jj \in JJfew :
+        /\ C = 3 + (pt % 4)
+        /\ (Quick => jj \in {<<0, 0>>, <<1, 1>>} /\ (ci + N0 + pt) % 2 = 0)
+        /\ v' = <<"val", Form(FullSet(1, <<1>>, <<N0>>, <<Dense[ci]>>), ct, nrm, asg), pt, jj[1], jj[2]>>
+  \/ \E ci \in 1..3, N0 \in {1, 2, 4}, N1 \in {-1, 0, 1, 2, 4}, ct \in {"general", "simple"}, nrm \in Norms, asg \in B2, t1 \in {-1, 2},
+        pt \in 1..6, jj \in JJfew :
+        /\ C = 7 + (pt % 4) + 4 * (N1 % 2)
+        /\ (Quick => jj \in {<<0, 0>>, <<1, 1>>} /\ t1 = 2 /\ ~asg /\ (ci + N0 + N1 + pt) % 3 = 0)
+        /\ v' = <<"val", Form(FullSet(2, <<1, t1>>, <<N0, N1>>, <<Dense[ci], Dense[(ci % 3) + 1]>>), ct, nrm, asg), pt, jj[1], jj[2]>>
+  \/ \E N0 \in {2, 4}, N1 \in {-1, 1, 2, 4}, N2 \in {-1, 0, 2, 4}, ct \in {"general", "simple"}, nrm \in Norms, asg \in B2, t1 \in {-1, 2},
+        pt \in 1..6, jj \in JJfew :
+        /\ C = 15 + (pt % 4) + 4 * (N1 % 2)
+        /\ (Quick => jj \in {<<0, 0>>, <<1, 1>>} /\ t1 = 2 /\ ~asg /\ (N0 + N1 + N2 + pt) % 3 = 0)
+        /\ v' = <<"val", Form(FullSet(3, <<1, t1, -t1>>, <<N0, N1, N2>>, <<Dense[1], Dense[2], Dense[3]>>), ct, nrm, asg), pt, jj[1], jj[2]>>
 
 (* ------------------------------------------------------------------ part "mag": magnetic model assembly *)
 Pal == << <<3, 1, 1, 0, 0, 0, 0>>, <<3, 1, 0, 1, -1, 0, 0>>, <<3, 1, -1, 1, 0, 1, 0>>, <<3, 1, 0, 0, 1, -1, 1>>,
           <<2, 0, 1, 0, 0, 1, 0>>, <<3, 0, 1, 0, 0, 0, -1>>, <<1, 1, 1, 1, 1, 0, 0>>, <<-1, -1, 0, 0, 0, 0, 0>> >>
 \* coefficient sets of a model chosen from the palette by a seed
 Sets(nm, nc, s) == [i \in 1..(nm + 1 + nc) |-> Pal[((s + 3 * i + i * i) % 8) + 1]]
-MagRec(nm, nc, dt0, tq, s, j, pt, Nmax, Mmax) ==
-  [nm |-> nm, nc |-> nc, dt0 |-> dt0, tq |-> tq, sets |-> Sets(nm, nc, s), j |-> j, pt |-> pt, Nmax |-> Nmax, Mmax |-> Mmax]
+\* a model file: meta = the keywords that are present in NAME.wmm (Harmonic.tla section 3), sets = the content of NAME.wmm.cof;
+\* wn = the normalisation in which the driver has to express the coefficients = the one the documentation says the file has
+MagAll(nm, nc, dt0, nrm) == [NumModels |-> nm, NumConstants |-> nc, DeltaEpoch |-> dt0, Normalization |-> nrm, Type |-> "linear",
+                             ByteOrder |-> "little", Description |-> "synthetic", ReleaseDate |-> "2026-01-01", Name |-> "synth", Radius |-> 4]
+Keep(full, omit) == [k \in (DOMAIN full) \ omit |-> full[k]]
+\* deco: the metadata file is written with comment lines, trailing comments, blank lines, tabs and keywords that the class does
+\* not know ("A # character and everything after it are discarded. If the result is just white space it is discarded ...
+\* Other keywords are ignored"): the model it denotes is the same
+MagFile(meta, nsets, tq, s, j, pt, Nmax, Mmax) ==
+  [meta |-> meta, deco |-> (tq + pt + nsets + Cardinality(DOMAIN meta) + s) % 2 = 0, sets |-> [i \in 1..nsets |-> Pal[((s + 3 * i + i * i) % 8) + 1]], tq |-> tq, j |-> j, pt |-> pt, Nmax |-> Nmax, Mmax |-> Mmax,
+   wn |-> Meta(meta, MagKeyDefault, "Normalization")]
+MagRec(nm, nc, dt0, tq, s, j, pt, Nmax, Mmax) == MagFile(MagAll(nm, nc, dt0, "schmidt"), nm + 1 + nc, tq, s, j, pt, Nmax, Mmax)
+LimAll == {<<a, b>> : a \in -2..4, b \in -2..4}
+LimFew == {<<0, -1>>, <<1, -1>>, <<1, 0>>, <<2, -1>>, <<2, 1>>, <<3, 0>>, <<5, -1>>, <<-1, 0>>, <<-1, 1>>, <<2, 2>>, <<-2, 1>>, <<0, 1>>, <<1, 2>>, <<-1, -2>>, <<0, 0>>}
+FieldKeys == {"NumModels", "NumConstants", "DeltaEpoch", "Normalization"}
+OtherKeys == {"Type", "ByteOrder", "Description", "ReleaseDate", "Name"}
 VecMag(C) ==
   \/ \E nm \in 1..3, nc \in 0..1, dt0 \in {1, 2}, s \in 0..(IF Quick THEN 3 ELSE 7), j \in {-1, 0, 1, 2}, pt \in 1..12 :
         \E tq \in InChunk(-4..(4 * dt0 * nm + 4), C) :
           /\ (Quick => (pt + j + tq) % 4 = 0)
           /\ v' = <<"mag", MagRec(nm, nc, dt0, tq, s, j, pt, -1, -1)>>
-  \/ \E nm \in {1, 2}, nc \in 0..1, s \in InChunk(0..7, C), tq \in {-2, 1, 4, 7}, pt \in {1, 2, 5, 10},
-        lim \in {<<0, -1>>, <<1, -1>>, <<1, 0>>, <<2, -1>>, <<2, 1>>, <<3, 0>>, <<5, -1>>, <<-1, 0>>, <<-1, 1>>, <<2, 2>>} :
+  \* the lattice of truncation requests (Nmax, Mmax): negative = not given, Mmax > Nmax >= 0 = documented exception
+  \/ \E nm \in {1, 2}, nc \in 0..1, s \in InChunk(0..7, C), tq \in {-2, 1, 4, 7}, pt \in {1, 2, 5, 10}, lim \in (IF Quick THEN LimFew ELSE LimAll) :
           v' = <<"mag", MagRec(nm, nc, 1, tq, s, 0, pt, lim[1], lim[2])>>
+  \* every optional keyword present or absent; the .cof file holds nmA + 1 + ncA sets, NumModels / NumConstants / DeltaEpoch /
+  \* Normalization are written with the values nmA / ncA / dtW / nrm unless omitted (an omitted NumModels with nmA = 2 sets is a
+  \* corrupt file, etc.); full normalisation written explicitly as well
+  \/ \E nmA \in {1, 2}, ncA \in 0..1, dtW \in {1, 2}, nrm \in {"schmidt", "full"}, om \in SUBSET FieldKeys, oth \in {{}, OtherKeys},
+        s \in InChunk(0..(IF Quick THEN 1 ELSE 3), C), tq \in {-2, 1, 4, 7}, pt \in {1, 5, 10}, lim \in {<<-1, -1>>, <<2, 1>>} :
+          /\ (Quick => (tq + pt + nmA + ncA + dtW) % 2 = 0)
+          /\ v' = <<"mag", MagFile(Keep(MagAll(nmA, ncA, dtW, nrm), om \cup oth), nmA + 1 + ncA, tq, s, 0, pt, lim[1], lim[2])>>
+
+(* ------------------------------------------------------------------ part "grv": gravity model and normal gravity lattice *)
+GrvAll(z0, cm, nrm) == [HeightOffset |-> z0, CorrectionMultiplier |-> cm, Normalization |-> nrm, ByteOrder |-> "little",
+                        Description |-> "synthetic", ReleaseDate |-> "2026-01-01", Name |-> "synth", ModelRadius |-> 0]
+Pars == {<<1, 1, 3, 2>>, <<1, 1, 3, 3>>, <<0, 1, 2, 2>>, <<1, 1, 2, 2>>}        \* <<ja, jr, km, kr>>
+JOf(par) == IF par[1] = 0 THEN {1, 2} ELSE {-1, 0, 1}                               \* R = 2^(ja + j); ja + j = jr is the surface
+GSets == << <<4, 1, Vec7(2186 - 1)>>, <<4, 0, Vec7(2014)>>, <<3, 1, Vec7(624 + 1)>>, <<2, 1, Vec7(2186 - 1)>>, <<1, 1, Vec7(2014)>>, <<4, 1, Vec7(1093 + 243)>> >>
+CSets == << <<2, 1, Vec7(2186)>>, <<-1, -1, Vec7(1093)>>, <<4, 0, Vec7(624)>>, <<1, 1, Vec7(2014)>> >>
+GrvFile(meta, par, rk, gi, ci, Nmax, Mmax, p, j, req) ==
+  [meta |-> meta, deco |-> (p + j + gi + ci + Cardinality(DOMAIN meta)) % 2 = 0, par |-> par, refkey |-> rk, gs |-> GSets[gi], cs |-> CSets[ci], Nmax |-> Nmax, Mmax |-> Mmax, p |-> p, j |-> j, req |-> req,
+   wn |-> Meta(meta, GrvKeyDefault, "Normalization")]
+GLimAll == {<<a, b>> : a \in -2..5, b \in -2..5}
+GLimFew == {<<-1, -1>>, <<-1, 0>>, <<-1, 1>>, <<-2, 3>>, <<0, -1>>, <<0, 0>>, <<1, -1>>, <<1, 0>>, <<2, -2>>, <<2, 1>>, <<2, 2>>, <<3, -1>>, <<3, 0>>,
+            <<4, 1>>, <<5, -1>>, <<0, 1>>, <<1, 2>>, <<2, 5>>, <<-1, 5>>, <<3, 1>>}
+Reqs == {32, 33, 0, 1, 2, 4, 8, 16, 3, 5, 6, 9, 17, 18, 20, 24, 31, 23, 30, 7, 19}
+VecGrv(C) ==
+  \* truncation lattice x file shapes x points, the circle with ALL capabilities
+  \/ \E lim \in (IF Quick THEN GLimFew ELSE GLimAll), gi \in 1..6, ci \in 1..4, par \in Pars, p \in InChunk(1..12, C) : \E j \in JOf(par) :
+        /\ (Quick => (lim[1] + lim[2] + gi + ci + p + j + par[3] + par[4]) % 16 = 0)
+        /\ (~Quick => (lim[1] + gi + ci + p + j + par[3]) % 4 = 0)
+        /\ v' = <<"grv", GrvFile(GrvAll(0, 1, "schmidt"), par, "Flattening", gi, ci, lim[1], lim[2], p, j, 32)>>
+  \* capability requests x points (h = 0 and h # 0)
+  \/ \E req \in (IF Quick THEN Reqs ELSE 0..33), gi \in {1, 3}, ci \in {1, 3}, par \in Pars, p \in InChunk(1..12, C), lim \in {<<-1, -1>>, <<2, 1>>} : \E j \in JOf(par) :
+        /\ (Quick => (req + gi + ci + p + j + par[4]) % 12 = 0)
+        /\ v' = <<"grv", GrvFile(GrvAll(1, 2, "schmidt"), par, "Flattening", gi, ci, lim[1], lim[2], p, j, req)>>
+  \* optional keywords present or absent, HeightOffset / CorrectionMultiplier values, either normalisation, J2 instead of f
+  \/ \E z0 \in {0, 1, -2}, cm \in {1, 2}, nrm \in {"schmidt", "full"}, om \in SUBSET {"HeightOffset", "CorrectionMultiplier", "Normalization"},
+        oth \in {{}, {"ByteOrder", "Description", "ReleaseDate", "Name"}}, rk \in {"Flattening", "DynamicalFormFactor"},
+        gi \in {1, 2}, ci \in {1, 2, 3}, par \in {<<1, 1, 3, 2>>, <<0, 1, 2, 2>>}, p \in InChunk(1..12, C) :
+        /\ (Quick => (z0 + cm + gi + ci + p + par[1] + Cardinality(om) + Cardinality(oth)) % 24 = 0)
+        /\ (~Quick => (gi + ci + p + Cardinality(om)) % 2 = 0)
+        /\ v' = <<"grv", GrvFile(Keep(GrvAll(z0, cm, nrm), om \cup oth), par, rk, gi, ci, -1, -1, p, par[2] - par[1], 32)>>
+  \* NormalGravity of the non-rotating sphere
+  \/ \E ja \in 0..2, km \in {1, 3}, via \in B2, n \in -2..9, p \in InChunk(1..12, C), j \in {0, 1} :
+        /\ (Quick => (ja + km + n + p + j) % 4 = 0)
+        /\ v' = <<"ngl", [ja |-> ja, km |-> km, via |-> via, n |-> n, p |-> p, j |-> j]>>
 
 Init == v = <<"root">>
 Next ==
   \/ v = <<"root">> /\ \E c \in 0..(NChunks - 1) : v' = <<"chunk", c>>
   \/ /\ v[1] = "chunk"
-     /\ CASE Part = "idx" -> VecIdx(v[2]) [] Part = "val" -> VecVal(v[2]) [] Part = "mag" -> VecMag(v[2])
+     /\ CASE Part = "idx" -> VecIdx(v[2]) [] Part = "val" -> VecVal(v[2]) [] Part = "mag" -> VecMag(v[2]) [] Part = "grv" -> VecGrv(v[2])
 
 (* ------------------------------------------------------------------ model invariants *)
 IdxInv ==
@@ -128,8 +216,10 @@ ValInv ==
     /\ (h.L = 1 /\ h.c[1][3] = 0 /\ h.c[1][4] = 0 => LET g == GradNum(h, pt, j, ja) IN d[3] # 0 => g[1] = 0 /\ g[2] = 0)
 
 MagInv ==
-  v[1] = "mag" =>
-    LET g == v[2]  seg == Segment(g)  per == 4 * g.dt0 IN
+  v[1] = "mag" /\ MagFileOK(v[2]) =>
+    LET g == MagEff(v[2])  seg == Segment(g)  per == 4 * g.dt0 IN
+    \* the driver is told to write the coefficients in the normalisation that the documentation attributes to the file
+    /\ v[2].wn = MagNorm(v[2])
     \* continuity at the knots of the piecewise linear time dependence
     /\ (g.tq % per = 0 /\ seg >= 1 /\ g.tq \div per = seg => MagB(g, seg) = MagB(g, seg - 1))
     \* the rate is the slope: B(t + 1/4) - B(t) = rate / 4 inside a segment
@@ -142,6 +232,52 @@ MagInv ==
     \* truncation above every degree changes nothing
     /\ (g.Nmax >= 3 /\ g.Mmax \in {-1, 1, 2, 3} /\ LimitsValid(g.Nmax, g.Mmax) => MagB([g EXCEPT !.Nmax = -1, !.Mmax = -1], seg) = MagB(g, seg))
     /\ MagDegree(g) \in -1..3 /\ MagOrder(g) \in -1..1
+
+\* a file with every optional keyword written with its default value denotes the same model as the file without them
+MetaInv ==
+  /\ v[1] = "mag" => LET f == v[2]  full == [k \in DOMAIN MagKeyDefault |-> Meta(f.meta, MagKeyDefault, k)] @@ f.meta
+                     IN MagEff([f EXCEPT !.meta = full]) = MagEff(f) /\ MagOutcome([f EXCEPT !.meta = full]) = MagOutcome(f)
+  /\ v[1] = "grv" => LET G == v[2]  full == [k \in DOMAIN GrvKeyDefault |-> Meta(G.meta, GrvKeyDefault, k)] @@ G.meta
+                     IN GrvOutcome([G EXCEPT !.meta = full]) = GrvOutcome(G) /\ (GrvOutcome(G) = "ok" => GGeoid([G EXCEPT !.meta = full]) = GGeoid(G))
+
+\* the primitive quantities of which every observation of a lattice gravity model is composed
+GrvPrim(G) == <<GV(G), GVg(G), GU(G), GTpg(G), GAnom(G), GGeoid(G)>>
+GrvInv ==
+  /\ v[1] = "grv" /\ GrvOutcome(v[2]) = "ok" =>
+      LET G == v[2]  lim == GLim(G)  R == GJa(G) + G.j  ax == GAx(G)
+          cut == [G EXCEPT !.gs = <<Min(G.gs[1], lim[1]), Min(G.gs[2], lim[2]), G.gs[3]>>,
+                           !.cs = <<Min(G.cs[1], lim[1]), Min(G.cs[2], lim[2]), G.cs[3]>>, !.Nmax = -1, !.Mmax = -1]
+      IN
+      /\ G.wn = GrvNorm(G)
+      \* the divisions in Sh are exact
+      /\ (R > 0 => (2 * GTp(G, G.j)) % (2^R) = 0)
+      /\ (GKr(G) > 2 * GJr(G) => GTp(G, GJr(G) - GJa(G)) % (2^(GKr(G) - 2 * GJr(G))) = 0)
+      /\ (GKr(G) > 2 * R => \A i \in 1..3 : GTpg(G)[i] % (2^(GKr(G) - 2 * R)) = 0)
+      \* truncating when the model is loaded = loading a file that holds the truncated sets
+      /\ GrvOutcome(cut) = "ok" /\ GrvPrim(cut) = GrvPrim(G) /\ GrvDegree(cut) = GrvDegree(G) /\ GrvOrder(cut) = GrvOrder(G)
+      \* "if non-negative, truncate the degree / order": bounds; a request at or above the file's degree and order is the identity
+      /\ (G.Nmax >= 0 => GrvDegree(G) <= G.Nmax) /\ (G.Mmax >= 0 => GrvOrder(G) <= G.Mmax)
+      /\ (G.Nmax < 0 /\ G.Mmax >= 0 => GrvDegree(G) = Max(G.gs[1], Max(G.cs[1], 0)))                \* the order only
+      /\ (lim[1] >= 4 /\ lim[2] >= 1 => GrvPrim([G EXCEPT !.Nmax = -1, !.Mmax = -1]) = GrvPrim(G))
+      \* W = T + U and g = gamma + delta
+      /\ GV(G) = GT(G) + GU(G) /\ GVg(G) = Add3(GTg(G), GUg(G))
+      \* H+M: a disturbing potential of degree n has gravity anomaly (n - 1) T_n / R
+      /\ Sh(GAnom(G), R) = 2^GKa(G) * SumSeq([n \in 1..4 |-> (n - 1) * ValDeg(GH(G), n, ax, G.j)], 1)
+      \* the geoid height is affine in HeightOffset and the correction enters with CorrectionMultiplier
+      /\ LET Z == [G EXCEPT !.meta = [k \in (DOMAIN G.meta) \ {"HeightOffset"} |-> G.meta[k]]]
+         IN GGeoid(G) - GGeoid(Z) = Meta(G.meta, GrvKeyDefault, "HeightOffset") * 2^K
+      \* the circle: everything with ALL (geoid height for h = 0 only), nothing with NONE
+      /\ LET x == GrvExp(G) IN
+         /\ (G.req = 32 /\ GH0(G) => \A f \in {"cv", "cw", "cg", "cd", "ct1", "ct", "cn", "ca", "cx"} : \A i \in 1..Len(x[f]) : x[f][i] # NaNK)
+         /\ (G.req = 33 => x.cv = NaNs(4) /\ x.ct1 = NaNs(1) /\ x.cn = NaNs(1))
+         /\ (~GH0(G) => x.cn = NaNs(1))
+  /\ v[1] = "ngl" =>
+      LET g == v[2] IN
+      /\ \A n \in 0..9 : n % 2 = 1 => NgJn(n) = 0
+      \* the Legendre sum of V0 with the coefficients -J_n reproduces GM / r:  U = - GM/r sum_n J_n (a/r)^n P_n
+      /\ NgU(g) * 2^(g.ja + g.j) = -NgJn(0) * 2^g.km /\ \A n \in 1..9 : NgJn(n) = 0
+      \* gamma = grad U is radial and Euler-homogeneous of degree -1:  x . grad U = - U
+      /\ Dot(AXIS[AxisOf(g.p)], NgUg(g)) * 2^(g.ja + g.j) = -NgU(g)
 
 Emit == v[1] \notin {"root", "chunk"} => PrintT(ToJson(v))
 =============================================================================
